@@ -28,6 +28,10 @@ def run(ctx):
     # [K] debug-assertions build
     dbg = ['c15_new_', 'c15_ord_', 'c15_from_', 'c15_dbg_', 'c15_build_mode_debug']
     run_kani(ctx, 'types', harness=dbg, tag='debug', harness_timeout='10m')
+    # [K] debug-assertions build WITHOUT the std feature of dasp_sample (no_std): overflow must still panic there
+    ctx.notes.append('the debug-build overflow harnesses (+, -, *, neg: exact in range, always panic otherwise) are also run against '
+                     'dasp_sample built with default-features = false (no_std)')
+    run_kani(ctx, 'types', harness=['c15_dbg_', 'c15_build_mode_debug'], tag='debug_nostd', no_default_features=True, harness_timeout='10m')
     # [K] release build
     run_kani(ctx, 'types', harness=['c15_rel_', 'c15_build_mode_release'], tag='release',
              rustflags='-C debug-assertions=off', allow_failed=whitelist_mul, harness_timeout='10m')
